@@ -105,6 +105,32 @@ CHECKS["C15"] = ("exploration",
     "private /dev/shm per worker (mount namespace); ASan + 24 GiB guard zones; RLIMIT_CPU 5 s as the bound for "
     "'terminates'", "DESIGN.md C15")
 
+CHECKS["C08"] = ("exploration",
+    "registration-ledger monitor on the real event loop under a virtual clock with wrapped epoll_wait; user data "
+    "blocks freed as soon as no callback may follow (ASan turns a late callback into a use-after-free)",
+    "Random add/modify/delete programs on jobs, timers, descriptors and signals, issued from outside and from "
+    "inside callbacks, are checked online by a ledger: exactly-once, nothing after a successful delete (also for "
+    "items already queued for dispatch), stale timer handles rejected, job FIFO per priority, signal counts, "
+    "qb_loop_stop from callbacks, everything due has run after a bounded drain.",
+    "virtual time; signals raise()d from the loop thread; one loop per process at a time", "DESIGN.md C08")
+CHECKS["C09"] = ("exploration",
+    "virtual-clock monitor: callback time vs expiry interval, expiry order per priority, every wrapped epoll_wait "
+    "timeout vs the earliest pending expiry, over the full 64-bit duration range",
+    "The monitor keeps its own [lo,hi] expiry interval for every timer (virtual clock read before/after the add "
+    "call) and judges each callback time, each epoll_wait timeout (negative = blocks indefinitely, otherwise wake-up "
+    "no later than earliest expiry + 1 ms rounding + one tick, +50 ms for the job pause) and the is-running / "
+    "time-remaining queries. Verdicts are on logical time only.",
+    "clock_gettime/clock_getres/usleep/epoll_wait wrapped at link time; callbacks take no virtual time",
+    "DESIGN.md C09")
+CHECKS["C10"] = ("exploration",
+    "dispatch-per-iteration trace oracle (3-iteration service window, ratio ordering) over generated saturating "
+    "workloads",
+    "Self-re-adding jobs, zero-delay timers and never-drained descriptors at the three priorities in random "
+    "proportions run for 300-1200 iterations; every backlogged level must dispatch in every window of three "
+    "iterations and higher levels must not be served in fewer iterations than lower ones.",
+    "purely logical (iterations delimited by the wrapped epoll_wait); levels fed only by descriptors are judged "
+    "only when all ready descriptors fit one epoll_wait", "DESIGN.md C10")
+
 REASON_PENDING = "check not registered yet in this revision (implementation in progress, see DESIGN.md section 7)"
 
 
